@@ -273,6 +273,26 @@ def impl_agg_op(line):
                     order.append(f"f {_idx(fcs, ch)}")
             bounds = f"{ac.start} {ac.end}" if hasattr(ac, "start") else "None"
             return (f"ok {len(ac)} {1 if ac.is_empty else 0} {bounds} {len(order)} " + " ".join(order)).strip()
+        if op == "aciter":
+            from inscripta.biocantor.gene.variants import VariantInterval, VariantIntervalCollection
+            gb, fb, vb = t.blocks(), t.blocks(), t.blocks()
+            genes = [L["GeneInterval"]([mk_tx(100 * i, dict(strand="+", primary=False, blocks=[(s, e)], cds=[], types=[]))],
+                                       gene_type=L["Biotype"].protein_coding, gene_id=f"g{i}")
+                     for i, (s, e) in enumerate(gb)]
+            fcs = [L["FeatureIntervalCollection"]([mk_feat(100 * i, dict(strand="+", primary=False, blocks=[(s, e)], types=[]))],
+                                                  feature_collection_id=f"f{i}") for i, (s, e) in enumerate(fb)]
+            vcs = [VariantIntervalCollection([VariantInterval(s, e, "A" * (e - s), "mnv", variant_id=f"var{i}")],
+                                             variant_collection_id=f"v{i}") for i, (s, e) in enumerate(vb)]
+            ac = L["AnnotationCollection"](feature_collections=fcs, genes=genes, variant_collections=vcs)
+            order = []
+            for ch in ac.iter_children():
+                if any(ch is g for g in genes):
+                    order.append(f"g {_idx(genes, ch)}")
+                elif any(ch is f for f in fcs):
+                    order.append(f"f {_idx(fcs, ch)}")
+                else:
+                    order.append(f"f {1000 + _idx(vcs, ch)}")
+            return (f"ok {len(order)} " + " ".join(order) + f" {len(ac.children_guids)} {len(ac.guid_map)}").replace("  ", " ")
         if op in ("acoll", "acollp"):
             parent = None
             if op == "acollp":
